@@ -166,6 +166,34 @@ func (p *Pool) Allocate(mac net.HardwareAddr) (net.IP, error) {
 	return ip, nil
 }
 
+// AllocateSpecific binds ip to mac if the pool can hand it out to that client:
+// either ip already is this client's allocation (it was offered to it), or the
+// client has no allocation and ip is free. Anything else - an address held by or
+// offered to another client, the gateway, the network or broadcast address, a
+// declined address - is refused.
+func (p *Pool) AllocateSpecific(mac net.HardwareAddr, ip net.IP) error {
+	p.mu.Lock()
+	defer p.mu.Unlock()
+
+	macStr := mac.String()
+	if cur, exists := p.allocated[macStr]; exists {
+		if cur.Equal(ip) {
+			return nil
+		}
+		return fmt.Errorf("client %s is allocated %s, not %s", macStr, cur, ip)
+	}
+
+	for i, avail := range p.available {
+		if avail.Equal(ip) {
+			p.available = append(p.available[:i], p.available[i+1:]...)
+			p.allocated[macStr] = avail
+			return nil
+		}
+	}
+
+	return fmt.Errorf("%s is not available in pool %s", ip, p.Name)
+}
+
 // Release releases an IP back to the pool
 func (p *Pool) Release(ip net.IP) {
 	p.mu.Lock()
